@@ -72,7 +72,7 @@ func c19(c *Ctx) {
 				return nil, false
 			}
 			// first reachable return on the path: reachability stops at returns, so collect all reachable returns and require a unique one
-			seen, _ := g.ReachFromEntry(func(x *GNode) bool { return false }, func(e *GEdge) bool { return !edgeOpen(info, e, env) })
+			seen, _ := g.ReachFromEntry(func(x *GNode) bool { return false }, func(e *GEdge) bool { return !edgeOpen(info, e, g.withLocals(env)) })
 			var rets []string
 			for x := range seen {
 				if rs, ok := x.N.(*ast.ReturnStmt); ok && len(rs.Results) == 2 {
@@ -143,6 +143,20 @@ func c19(c *Ctx) {
 				d := "?"
 				if cf != nil && cf.Name() == "NewWithAttributes" && len(call.Args) == 2 {
 					d = exprStr(call.Args[0])
+					// judged by value: the schema URL argument folds, under the row's facts, to a's or b's URL
+					if v, known := evalConst(info, call.Args[0], g.withLocals(env)); known && v.Kind() == constant.String {
+						switch constant.StringVal(v) {
+						case row.a:
+							d = pa.Name() + ".schemaURL"
+							if row.a == row.b && row.want != "same" {
+								d = "=" + quote(row.a)
+							}
+						case row.b:
+							d = pb.Name() + ".schemaURL"
+						default:
+							d = "=" + quote(constant.StringVal(v))
+						}
+					}
 				}
 				if cf != nil && cf.Name() == "NewSchemaless" {
 					d = "schemaless"
@@ -363,7 +377,7 @@ func ruleEnvParser(c *Ctx, rx *PkgIndex, rule string) {
 	if fn == nil {
 		return
 	}
-	var val, raw, key, rawKey, found types.Object
+	var val, raw types.Object
 	var unesc *ast.CallExpr
 	inspectNoLit(fn.Body(), func(n ast.Node) bool {
 		as, ok := n.(*ast.AssignStmt)
@@ -371,28 +385,88 @@ func ruleEnvParser(c *Ctx, rx *PkgIndex, rule string) {
 			return true
 		}
 		call, ok := unparen(as.Rhs[0]).(*ast.CallExpr)
-		if !ok {
-			return true
-		}
-		switch {
-		case isCallTo(info, call, "net/url.PathUnescape") && len(as.Lhs) == 2:
+		if ok && isCallTo(info, call, "net/url.PathUnescape") && len(as.Lhs) == 2 && len(call.Args) == 1 {
 			val = objOf(info, as.Lhs[0])
 			unesc = call
-		case isCallTo(info, call, "strings.Cut") && len(as.Lhs) == 3:
-			rawKey, raw, found = objOf(info, as.Lhs[0]), objOf(info, as.Lhs[1]), objOf(info, as.Lhs[2])
-			_ = rawKey
 		}
 		return true
 	})
-	if val == nil || raw == nil || unesc == nil {
-		c.Undecided(rule, "sdk/resource|constructOTResources|value = PathUnescape(trimmed text)", at(rx.M, fn.Pos()), "decoder call or strings.Cut not found")
+	if val == nil || unesc == nil {
+		c.Undecided(rule, "sdk/resource|constructOTResources|value = PathUnescape(trimmed text)", at(rx.M, fn.Pos()), "decoder call not found")
 		return
 	}
-	// decoder input: the raw value, at most trimmed of literal surrounding white space
+	// decoder input: a local, at most trimmed of literal surrounding white space
 	in := unparen(unesc.Args[0])
-	okIn := sameVar(info, in, raw)
-	if call, ok := in.(*ast.CallExpr); ok && isCallTo(info, call, "strings.TrimSpace") && len(call.Args) == 1 && sameVar(info, call.Args[0], raw) {
-		okIn = true
+	if call, ok := in.(*ast.CallExpr); ok && isCallTo(info, call, "strings.TrimSpace") && len(call.Args) == 1 {
+		raw = objOf(info, call.Args[0])
+	} else {
+		raw = objOf(info, in)
+	}
+	// … which is the text after the pair's first "=": second result of strings.Cut(pair, "="), or pair[i+1:] with
+	// i := strings.Index/IndexByte(pair, "=")
+	okIn := false
+	found := map[types.Object]bool{}    // "an '=' was found" flags (Cut's third result)
+	sepIdx := map[types.Object]bool{}   // index of the first '=' (−1 when there is none)
+	isEq := func(e ast.Expr) bool {
+		if s, ok := constString(info, e); ok && s == "=" {
+			return true
+		}
+		if tv := info.Types[e]; tv.Value != nil && tv.Value.Kind() == constant.Int {
+			v, _ := constant.Int64Val(tv.Value)
+			return v == '='
+		}
+		return false
+	}
+	inspectNoLit(fn.Body(), func(n ast.Node) bool {
+		as, ok := n.(*ast.AssignStmt)
+		if !ok || len(as.Rhs) != 1 && len(as.Lhs) != len(as.Rhs) {
+			return true
+		}
+		if len(as.Rhs) == 1 {
+			if call, ok := unparen(as.Rhs[0]).(*ast.CallExpr); ok {
+				switch {
+				case isCallTo(info, call, "strings.Cut") && len(as.Lhs) == 3 && len(call.Args) == 2 && isEq(call.Args[1]):
+					if raw != nil && objOf(info, as.Lhs[1]) == raw {
+						okIn = true
+					}
+					if o := objOf(info, as.Lhs[2]); o != nil {
+						found[o] = true
+					}
+				case (isCallTo(info, call, "strings.IndexByte") || isCallTo(info, call, "strings.Index") || isCallTo(info, call, "strings.IndexRune")) && len(as.Lhs) == 1 && len(call.Args) == 2 && isEq(call.Args[1]):
+					if o := objOf(info, as.Lhs[0]); o != nil {
+						sepIdx[o] = true
+					}
+				}
+			}
+		}
+		return true
+	})
+	if raw != nil && !okIn {
+		// raw := pair[i+1:] (possibly in a tuple assignment)
+		inspectNoLit(fn.Body(), func(n ast.Node) bool {
+			as, ok := n.(*ast.AssignStmt)
+			if !ok || len(as.Lhs) != len(as.Rhs) {
+				return true
+			}
+			for i, l := range as.Lhs {
+				if objOf(info, l) != raw {
+					continue
+				}
+				se, ok := unparen(as.Rhs[i]).(*ast.SliceExpr)
+				if !ok || se.High != nil || se.Low == nil {
+					continue
+				}
+				terms, k := linearForm(info, se.Low)
+				if k == 1 && len(terms) == 1 {
+					for o := range sepIdx {
+						if terms[o.Name()] == 1 {
+							okIn = true
+						}
+					}
+				}
+			}
+			return true
+		})
 	}
 	c.Check(okIn, rule, "sdk/resource|constructOTResources|decoder input is the pair's value text", at(rx.M, fn.Pos()), exprStr(in), "the percent-decoder no longer receives the text after the first '='")
 	// every other definition of the decoded value is the raw text (fallback on a decoding error)
@@ -429,13 +503,11 @@ func ruleEnvParser(c *Ctx, rx *PkgIndex, rule string) {
 		if !sameVar(info, call.Args[1], val) {
 			okStore = false
 		}
-		key = objOf(info, call.Args[0])
 		return true
 	})
 	c.Check(okStore && nStore == 1, rule, "sdk/resource|constructOTResources|stored value is the decoder's output unchanged", at(rx.M, fn.Pos()), "attribute.String(key, val)", "a transformation is applied to the value after percent-decoding: escaped characters (e.g. %20 at either end) are not preserved")
-	_ = key
-	// pairs without "=" are skipped: the store is not reachable across the !found edge
-	if found != nil {
+	// pairs without "=" are skipped: with every "an '=' was found" edge removed the store is unreachable
+	if len(found)+len(sepIdx) > 0 {
 		g := rx.FG(fn)
 		stores := g.Match(func(n ast.Node) bool {
 			call, ok := n.(*ast.CallExpr)
@@ -444,7 +516,20 @@ func ruleEnvParser(c *Ctx, rx *PkgIndex, rule string) {
 		okSkip := len(stores) == 1
 		if okSkip {
 			seen, _ := g.ReachFromEntry(nil, func(e *GEdge) bool {
-				return edgeImplies(e, func(cnd ast.Expr, pol int) bool { return pol > 0 && sameVar(info, cnd, found) })
+				return edgeImplies(e, func(cnd ast.Expr, pol int) bool {
+					if id, ok := cnd.(*ast.Ident); ok && pol > 0 && found[info.Uses[id]] {
+						return true
+					}
+					// i >= 0, i != -1, i > -1 (and the negations of i < 0, i == -1)
+					if l, op, r, ok := cmpNorm(cnd, pol); ok {
+						if id, isID := l.(*ast.Ident); isID && sepIdx[info.Uses[id]] {
+							if v, isC := constInt(info, r); isC {
+								return (op == token.GEQ && v == 0) || (op == token.NEQ && v == -1) || (op == token.GTR && v == -1)
+							}
+						}
+					}
+					return false
+				})
 			})
 			// with every "found" edge removed the store must be unreachable
 			okSkip = !seen[stores[0]]
